@@ -116,6 +116,7 @@ func checkC05(ctx *Ctx, r *Report) {
 	c05EntryPointFollowsRemoval(ctx, r)
 	c05OpenAPIMappingNames(ctx, r)
 	c15ReferenceSiblings(ctx, r)
+	c07ReferenceByBareName(ctx, r)
 }
 
 // ---------------------------------------------------------------------------
